@@ -179,7 +179,13 @@ func VH_C04_untypedInt_to_float32() {
 	c := vhConstInt("constant")
 	var zero float32
 	res, failed := vhLitConvert(&Lit{Kind: Int, Val: c}, vhTypeOf(zero))
-	vhAssert(!failed, "an untyped integer constant always converts to float32")
+	// the largest float32 is just below 2^128: constants up to 2^127 convert, constants from 2^129 overflow
+	// (the exact threshold 2^128 - 2^103 lies in between and is not decided here)
+	if vhConstAbsBelowPow2(c, 127) {
+		vhAssert(!failed, "an untyped integer constant of magnitude below 2^127 converts to float32")
+	} else if !vhConstAbsBelowPow2(c, 129) {
+		vhAssert(failed, "an untyped integer constant of magnitude 2^129 or more overflows float32 and is rejected")
+	}
 	if !failed {
 		got, ok := res.(float32)
 		vhAssert(ok, "the result has the target type")
